@@ -72,6 +72,15 @@ class Layout:
 
 
 NULL = (0, 0)
+
+class Bad:
+    """poison-like value: non-pointer data loaded with pointer type (LLVM may speculate such loads and comparisons on them and
+    discard the result). It propagates through pure operations; using it (dereference, branch, assertion) is a violation."""
+    __slots__ = ('info',)
+    def __init__(self, info): self.info = info
+    def __repr__(self): return 'Bad(%s)' % self.info
+def bad_use(v, what):
+    return Violation('%s depends on %s used as a pointer (type confusion / uninitialised pointer)' % (what, v.info), 'memory')
 def is_ptr(v): return type(v) is tuple
 def is_sym(v): return isinstance(v, z3.ExprRef)
 
@@ -93,10 +102,10 @@ class Frame:
 
 
 class Thread:
-    __slots__ = ('stack', 'status', 'cv', 'relock', 'timed', 'wres', 'spin')
-    def __init__(self): self.stack = []; self.status = 'ready'; self.cv = None; self.relock = None; self.timed = False; self.wres = 1; self.spin = None
+    __slots__ = ('stack', 'status', 'cv', 'relock', 'timed', 'wres', 'spin', 'rets')
+    def __init__(self): self.stack = []; self.status = 'ready'; self.cv = None; self.relock = None; self.timed = False; self.wres = 1; self.spin = None; self.rets = (1, 0)
     def clone(self):
-        t = Thread(); t.stack = [f.clone() for f in self.stack]; t.status = self.status; t.cv = self.cv; t.relock = self.relock; t.timed = self.timed; t.wres = self.wres; t.spin = self.spin; return t
+        t = Thread(); t.stack = [f.clone() for f in self.stack]; t.status = self.status; t.cv = self.cv; t.relock = self.relock; t.timed = self.timed; t.wres = self.wres; t.spin = self.spin; t.rets = self.rets; return t
 
 
 class State:
@@ -269,13 +278,15 @@ class Engine:
     # ------------------------------------------------------------------ memory
     def robj(self, st, p, what):
         if type(p) is not tuple:
+            if type(p) is Bad: raise bad_use(p, what)
             if is_sym(p): raise Violation('%s through symbolic non-pointer data (type confusion / wild pointer)' % what, 'memory')
             if p == 0: raise Violation('%s: null pointer dereference' % what, 'memory')
             raise Violation('%s through non-pointer value %r' % (what, p), 'memory')
         o = st.mem.get(p[0])
         if o is None:
             o = self.base.get(p[0])
-            if o is None: raise Violation('%s: null/invalid pointer (offset %d)' % (what, p[1]), 'memory')
+            if o is None:
+                raise Violation('%s: null/invalid pointer (offset %d)' % (what, p[1]), 'memory')
         if o.freed: raise Violation('%s: use after %s of %s object %s' % (what, 'free' if o.kind == 'heap' else 'scope', o.kind, o.name), 'memory')
         if o.kind == 'func': raise Violation('%s: data access to function' % what, 'memory')
         return o
@@ -319,8 +330,9 @@ class Engine:
             if isptr and type(v) is not tuple:
                 if type(v) is int:
                     if v == 0: return NULL
-                    raise Violation('load of non-pointer value %#x as pointer' % v, 'memory')
-                raise Violation('symbolic (non-pointer) data loaded as pointer (type confusion / uninitialised pointer)', 'memory')
+                    return Bad('non-pointer value %#x' % v)
+                # LLVM may speculate such a load and discard the value: the error is raised when the value is used
+                return Bad('symbolic non-pointer data')
             return v
         bs = []
         for i in range(w):
@@ -339,18 +351,21 @@ class Engine:
                 o2.cells[off + i] = (b, 1); o = o2
                 st.tags.add('uninit-read')
             bs.append(b)
+        for b in bs:
+            if type(b) is Bad: return b
         if all(type(b) is int for b in bs):
             v = 0
             for i, b in enumerate(bs): v |= b << (8 * i)
             if isptr:
                 if v == 0: return NULL
-                raise Violation('load of non-pointer value %#x as pointer' % v, 'memory')
+                return Bad('non-pointer value %#x' % v)
             return v
         if type(bs[0]) is tuple and bs[0][0] == 'ptrbyte':
             if w == 8 and all(type(b) is tuple and b[0] == 'ptrbyte' and b[1] == bs[0][1] and b[2] == i for i, b in enumerate(bs)): return bs[0][1]
         if any(type(b) is tuple for b in bs):
+            if isptr: return Bad('a mix of pointer bytes and data bytes')
             raise Violation('load mixes pointer bytes with data bytes (type confusion)', 'memory')
-        if isptr: raise Violation('symbolic (non-pointer) data loaded as pointer (type confusion / uninitialised pointer)', 'memory')
+        if isptr: return Bad('symbolic non-pointer data')
         e = None
         for b in reversed(bs):
             bb = z3.BitVecVal(b, 8) if type(b) is int else b
@@ -457,6 +472,7 @@ class Engine:
         if is_sym(v):
             if z3.is_bool(v): return z3.If(v, z3.BitVecVal(1, bits), z3.BitVecVal(0, bits))
             return v
+        if type(v) is Bad: raise bad_use(v, 'arithmetic')
         if type(v) is tuple: raise Inconclusive('pointer used in symbolic arithmetic')
         return z3.BitVecVal(v, bits)
 
@@ -576,6 +592,8 @@ class Engine:
             iv = self.val(fr, o)
             if is_sym(iv): iv = self.concretize(st, work, iv, o.t.a)
             idx.append(iv)
+        if type(base) is Bad:
+            fr.loc[ins.res] = base; fr.ip += 1; return
         if type(base) is not tuple:
             if is_sym(base): raise Violation('address computation on symbolic non-pointer data (type confusion)', 'memory')
             if base == 0: base = NULL
@@ -587,6 +605,8 @@ class Engine:
 
     def i_ext(self, st, work, fr, ins):
         op = ins.op; v = self.val(fr, ins.ops[0]); sb = ins.ops[0].t.a; db = ins.ty.a
+        if type(v) is Bad:
+            fr.loc[ins.res] = v; fr.ip += 1; return
         if is_sym(v):
             v = self.tobv(v, sb)
             if op == 'zext': r = z3.ZeroExt(db - sb, v)
@@ -610,6 +630,9 @@ class Engine:
 
     def i_select(self, st, work, fr, ins):
         c = self.val(fr, ins.ops[0])
+        if type(c) is Bad: raise bad_use(c, 'select condition')
+        if is_sym(c):
+            if type(self.val(fr, ins.ops[1])) is Bad or type(self.val(fr, ins.ops[2])) is Bad: c = self.branch(st, work, c)
         if is_sym(c):
             a = self.val(fr, ins.ops[1]); b = self.val(fr, ins.ops[2])
             if type(a) is not tuple and type(b) is not tuple and ins.ty.k == 'int' and not isinstance(a, list) and not isinstance(b, list):
@@ -628,11 +651,13 @@ class Engine:
             v = ins.ops[0]; c = fr.loc[v.a] if v.k == 'local' else v.a
             if type(c) is not int:
                 if is_sym(c): c = self.branch(st, work, c)
+                elif type(c) is Bad: raise bad_use(c, 'branch condition')
                 else: c = 1   # pointer as condition cannot occur (i1)
             self.jump(fr, x[0] if c else x[1])
 
     def i_switch(self, st, work, fr, ins):
         v = self.val(fr, ins.ops[0])
+        if type(v) is Bad: raise bad_use(v, 'switch')
         if is_sym(v): v = self.concretize(st, work, v, ins.ops[0].t.a)
         self.jump(fr, ins.c.get(v, ins.x[0]))
 
@@ -706,6 +731,8 @@ class Engine:
     # ------------------------------------------------------------------ arithmetic
     def binop(self, st, op, a, b, bits, fl):
         mask = (1 << bits) - 1
+        if type(a) is Bad: return a
+        if type(b) is Bad: return b
         if type(a) is tuple or type(b) is tuple:
             if type(a) is tuple and a[0] == 'fp' or type(b) is tuple and b[0] == 'fp': raise Inconclusive('floating point arithmetic')
             if op in ('add', 'sub') and type(a) is tuple and type(b) is int:
@@ -775,7 +802,11 @@ class Engine:
         return (0x100000 + p[0] * 0x1000 + p[1]) & 0xffffffffffffffff
 
     def icmp(self, p, a, b, t):
+        if type(a) is Bad: return a
+        if type(b) is Bad: return b
         if type(a) is tuple or type(b) is tuple:
+            if type(a) is Bad: return a
+            if type(b) is Bad: return b
             if type(a) is not tuple:
                 if is_sym(a): raise Violation('symbolic non-pointer data compared with a pointer (type confusion)', 'memory')
                 a = NULL if a == 0 else (-1, a)
@@ -896,7 +927,7 @@ class Engine:
         if t.status == 'relock':
             st.mutexes[t.relock] = st.cur; t.status = 'ready'
             fr = t.stack[-1]; ins = fr.blk[fr.ip]
-            if ins.res is not None: fr.loc[ins.res] = t.wres
+            if ins.res is not None: fr.loc[ins.res] = t.rets[0] if t.wres else t.rets[1]
             if ins.op == 'invoke': self.jump(fr, ins.x['normal'])
             else: fr.ip += 1
             st.resumed = False; return
@@ -910,6 +941,7 @@ class Engine:
         else:
             fp = fr.loc[cal.a] if cal.k == 'local' else cal.a
             if type(fp) is not tuple or fp[0] not in self.fname:
+                if type(fp) is Bad: raise bad_use(fp, 'indirect call')
                 if is_sym(fp): raise Violation('indirect call through symbolic non-pointer data (type confusion)', 'memory')
                 raise Violation('indirect call through bad pointer %r' % (fp,), 'memory')
             name = self.fname[fp[0]]
@@ -1017,6 +1049,7 @@ def sx(v, bits):
     return v - (1 << bits) if v >> (bits - 1) else v
 
 def byte_of(v, i, w):
+    if type(v) is Bad: return v
     if type(v) is tuple:
         if v[0] == 'ptrbyte': return v
         return ('ptrbyte', v, i)
@@ -1184,8 +1217,8 @@ def x_join(e, st, work, fr, ins, a):
         if len(st.threads) > 1: raise Reschedule()
     return 0
 
-def cv_block(e, st, a, timed):
-    t = st.threads[st.cur]; m_ = a[1]
+def cv_block(e, st, a, timed, rets=(1, 0)):
+    t = st.threads[st.cur]; m_ = a[1]; t.rets = rets
     if st.mutexes.get(m_) != st.cur: raise Violation('condition variable wait without owning the mutex', 'ub')
     if len(st.threads) == 1 and not timed: raise Violation('deadlock: single thread waits on a condition variable', 'deadlock')
     st.mutexes[m_] = None; t.status = 'cvwait'; t.cv = a[0]; t.relock = m_; t.timed = timed; t.wres = 1
@@ -1211,6 +1244,32 @@ def x_cv_notify_all(e, st, work, fr, ins, a):
     for t in st.threads:
         if t.status == 'cvwait' and t.cv == a[0]: t.status = 'relock'; t.wres = 1; t.timed = False
     return None
+
+@ext('_ZNSt18condition_variableC1Ev', '_ZNSt18condition_variableC2Ev')
+def x_cv_ctor(e, st, work, fr, ins, a):
+    e.x_memset(st, [a[0], 0, 48]); return None
+
+@ext('_ZNSt18condition_variableD1Ev', '_ZNSt18condition_variableD2Ev')
+def x_cv_dtor(e, st, work, fr, ins, a): return None
+
+@ext('_ZNSt18condition_variable10notify_oneEv')
+def x_stdcv_notify_one(e, st, work, fr, ins, a): return x_cv_notify_one(e, st, work, fr, ins, a)
+
+@ext('_ZNSt18condition_variable10notify_allEv')
+def x_stdcv_notify_all(e, st, work, fr, ins, a): return x_cv_notify_all(e, st, work, fr, ins, a)
+
+@ext('_ZNSt18condition_variable4waitERSt11unique_lockISt5mutexE')
+def x_stdcv_wait(e, st, work, fr, ins, a):
+    m_ = e.load(st, a[1], 8, True)          # unique_lock::_M_device
+    cv_block(e, st, [a[0], m_], False, (None, None))
+
+@ext('pthread_cond_clockwait', 'pthread_cond_timedwait')
+def x_pthread_cond_timedwait(e, st, work, fr, ins, a):
+    cv_block(e, st, [a[0], a[1]], True, (0, 110))
+
+@ext('_ZNSt6chrono3_V212steady_clock3nowEv', '_ZNSt6chrono3_V212system_clock3nowEv')
+def x_clock_now(e, st, work, fr, ins, a):
+    st.nsym += 1; return 1000000000 * (1 + st.nsym)
 
 # --- harness API
 @ext('vf_choose')
@@ -1254,6 +1313,7 @@ def x_assume(e, st, work, fr, ins, a):
 @ext('vf_assert')
 def x_assert(e, st, work, fr, ins, a):
     c = a[0]
+    if type(c) is Bad: raise bad_use(c, 'assertion %d' % a[1])
     if is_sym(c):
         c = e.as_bool(c); bad, mdl = e.sat(st, z3.Not(c))
         if bad: raise Violation('assertion %d can fail' % a[1], 'assert', a[1], mdl)
